@@ -142,6 +142,48 @@ pub fn self_referential_models() -> Vec<Model> {
     out
 }
 
+/// Every half-reified / reified cumulative case (all propagation methods) with a free reification
+/// literal of either polarity, for the root-bound check C12.
+pub fn reified_cumulative_models(tier: Tier) -> Vec<Model> {
+    let mut out = vec![];
+    for (vars, inner) in inner_models(tier) {
+        if !matches!(inner, Con::Cumulative { .. }) {
+            continue;
+        }
+        for status in [LitStatus::Free, LitStatus::NegativeFree] {
+            if let Some(m) = build_case(&vars, &inner, Mode::Implied, status) {
+                out.push(m);
+            }
+        }
+    }
+    // task sets with time-table pruning at the root (a mandatory part that another task cannot
+    // overlap), under every propagation method
+    let v = View::id;
+    let sets: Vec<(Vec<VarDecl>, Vec<i32>, Vec<i32>, i32)> = vec![
+        (vec![VarDecl::from_values(&[0]), VarDecl::interval(0, 6)], vec![4, 2], vec![1, 1], 1),
+        (vec![VarDecl::interval(1, 2), VarDecl::interval(0, 5)], vec![3, 2], vec![1, 1], 1),
+        (vec![VarDecl::interval(2, 3), VarDecl::interval(0, 6), VarDecl::interval(1, 5)], vec![3, 2, 1], vec![2, 1, 2], 2),
+    ];
+    for (vars, durations, usages, cap) in sets {
+        for method in 0..6 {
+            let opts = CumOpts { method, ..CumOpts::default_opts() };
+            let inner = Con::Cumulative {
+                starts: (0..vars.len()).map(v).collect(),
+                durations: durations.clone(),
+                usages: usages.clone(),
+                cap,
+                opts,
+            };
+            for status in [LitStatus::Free, LitStatus::NegativeFree] {
+                if let Some(m) = build_case(&vars, &inner, Mode::Implied, status) {
+                    out.push(m);
+                }
+            }
+        }
+    }
+    out
+}
+
 /// A stride of the reified / half-reified cases with a free reification literal (positive and
 /// negative polarity, reified negation), for the explanation check C17.
 pub fn reified_models(tier: Tier) -> Vec<Model> {
